@@ -111,7 +111,7 @@ class NumpyBackendProvider(BackendProvider):
 
         param_names = list(self._collect_params(ir))
         fn_source = f"def _expr({', '.join(param_names)}): return {source}"
-        ns = {'np': np}
+        ns = dict(self._compiled_namespace(), np=np)
         try:
             exec(fn_source, ns)
         except Exception:
@@ -134,7 +134,11 @@ class NumpyBackendProvider(BackendProvider):
             r = self._ir_to_source(right)
             if l is None or r is None:
                 return None
-            py_op = {'+': '+', '-': '-', '*': '*', '%': '/', '^': '**'}.get(op)
+            if op == '^':
+                return f'_kg_power({l},{r})'
+            if op == '%':
+                return f'_kg_divide({l},{r})'
+            py_op = {'+': '+', '-': '-', '*': '*'}.get(op)
             if py_op is None:
                 return None
             return f'({l}{py_op}{r})'
